@@ -720,6 +720,87 @@ def check_foreign(chk, specs):
         chk.cov['traces_validated_against_impl'] += 1
 
 
+def check_defaults(chk):
+    ''' objects built the way the agent's own code builds them — without bp_version, timestamp, lifetime,
+    flags, CRC type — carry the defaults of the Lean structures (which mirror the field declarations);
+    correspondence only: the defaults of unset fields are not part of the property text '''
+    R = G.real()
+    o = chk.driver([{'op': 'bp.defaults'}])[0]
+    real = {'primary': bytes(R['PrimaryBlock']()).hex(), 'timestamp': bytes(R['Timestamp']()).hex(),
+            'canonical': bytes(R['CanonicalBlock'](type_code=1, block_num=1, btsd=b'')).hex()}
+    chk.case({'defaults': real})
+    chk.count('defaults:probe')
+    for k, v in real.items():
+        if o.get(k) != v:
+            chk.corr_break('defaults: %s built without arguments encodes as %s, the model structure default as %s'
+                           % (k, v, o.get(k)), {'object': k, 'real_hex': v, 'lean_hex': o.get(k)})
+
+
+def check_originated(chk, n):
+    ''' H: bundles the agent originates itself — Agent.ping() and the status reports it generates for
+    received bundles (PrimaryBlock built from destination/flags/CRC type only) — as handed to the
+    convergence layer: RFC 9171 structure with version 7 as the independent readers see it, decodable,
+    re-encodable. '''
+    from . import c08
+    from gi.repository import GLib
+    R = G.real()
+    rng = chk.rng
+    tx = c08.TxAgent()
+    agent = tx.agent
+    sent_all = []
+    for k in range(n):
+        GLib.LOOP.sources.clear()
+        cl = G.agent_tx_route(agent, None)
+        what = 'ping' if k % 2 == 0 else 'status-report'
+        try:
+            if what == 'ping':
+                agent.ping('dtn://peer%d/' % k, rng.choice([0, 1, 23, 24, 255, 256]))
+            else:
+                spec = G.gen_bundle(rng, 0, crc_mode='update', max_time=2 ** 40, nblocks=0, sec=False)
+                spec['primary'].update({'flags': 0x4000 | 0x20000 | rng.choice([0, 0x40]), 'version': 7,
+                                        'dest': ('dtn', '//txnode/svc'), 'src': ('dtn', '//src%d/' % k),
+                                        'rpt': ('dtn', '//rpt%d/' % k), 'frag_off': 0, 'total_len': 0})
+                spec['blocks'][-1]['extra'] = None
+                b = G.real_bundle(spec)
+                b.update_all_crc()
+                agent._config.rx_route_table[:] = agent._config.rx_route_table[:1]
+                agent._cl_recv_bundle_finish('verif')(bytes(b), {})
+            G.agent_run_idle(agent)
+        except Exception as e:  # noqa
+            chk.count('H:%s raised %s' % (what, type(e).__name__))
+        GLib.LOOP.sources.clear()
+        for s in cl.sent:
+            sent_all.append((what, s))
+        chk.count('H:%s sent=%d' % (what, len(cl.sent)))
+    outs = chk.driver([{'op': 'bp.shape', 'hex': s.hex()} for _w, s in sent_all])
+    for (what, s), o in zip(sent_all, outs):
+        replay = {'stream': 'H', 'originated': what, 'sent_hex': s.hex()}
+        chk.case(replay)
+        ok, why = _is_rfc_shape(s)
+        ver = None
+        try:
+            ver = G.cb_read_head(s, G.split_blocks(s)[0]['items'][0][0])[1]
+        except Exception:  # noqa
+            pass
+        strict = G.rfc_strict_ok(s)
+        if not ok or not strict or ver != 7:
+            replay['why'] = why or ('version %r' % ver if ver != 7 else 'field types')
+            chk.violation('C02:originated-not-rfc9171', 'a bundle originated by the agent (%s) is not a well-formed RFC 9171 '
+                          'bundle as an independent reader sees it: %s' % (what, replay['why']), replay)
+        if not o.get('ok'):
+            chk.corr_break('H: Lean rfc9171Shape rejects a bundle originated by the agent', replay)
+        try:
+            back = R['Bundle'](s)
+            again = bytes(back)
+        except Exception as e:  # noqa
+            chk.violation('C02:decode-own-encoding-raises', 'Bundle(octets originated by the agent) raised %r' % e, replay)
+            continue
+        if again != s:
+            chk.violation('C02:reencode-bytes', 're-encoding a decoded originated bundle does not reproduce the octets',
+                          dict(replay, reencoded=again.hex()))
+        chk.cov['traces_validated_against_impl'] += 1
+
+
 def check_agent_tx(chk, specs):
     ''' E: octets the real agent hands to a convergence layer (Agent.send_bundle, ctr.sender = capture) '''
     from . import c08
@@ -801,6 +882,8 @@ def run(chk):
         check_malformed(chk, cases[k:k + 1000])
     check_pending_reenc(chk)
     check_dtntime(chk, 300 if quick else 20000)
+    check_defaults(chk)
+    check_originated(chk, 12 if quick else 200)
     check_agent_tx(chk, specs[:150 if quick else 2000])
     d19_probe(chk)
 
